@@ -41,6 +41,11 @@ func onlyEmptyKeyBlock(chunk []pair, blockSize int) bool {
 	return hasEmpty && (blockSize == 1 || len(chunk) == 1)
 }
 
+// isBuildEmptyKeyPanic: the panic of the known defect - index out of range inside builder.buildNodes.
+func isBuildEmptyKeyPanic(what string) bool {
+	return strings.Contains(what, "buildNodes") && strings.Contains(what, "index out of range")
+}
+
 func pickBlockSize(rnd *rand.Rand, n int) int {
 	cands := []int{1, 2, 3, 7, 64, n - 1, n, n + 1, n/2 + 1, math.MaxInt16}
 	bs := cands[rnd.Intn(len(cands))]
@@ -63,7 +68,7 @@ func writeDict(r *rec, chunk []pair, blockSize int, wit witFn) ([]byte, bool) {
 	var err error
 	if pn, what := guard(func() { err = model.NewTrieBucketBuilder(blockSize, &buf).Write(keys, ids) }); pn {
 		class := "C20/bucket/panic-builder-write"
-		if onlyEmptyKeyBlock(chunk, blockSize) && strings.Contains(what, "buildNodes") {
+		if onlyEmptyKeyBlock(chunk, blockSize) && isBuildEmptyKeyPanic(what) {
 			class = "C20/trie/build-only-empty-key"
 		}
 		r.viol(class, fmt.Sprintf("TrieBucketBuilder(blockSize=%d).Write of %d pairs panicked: %s", blockSize, len(chunk), what), wit("TrieBucketBuilder.Write", nil, map[string]interface{}{"block_size": blockSize}))
